@@ -180,8 +180,7 @@ void CoreSMTSolver::addVar_(Var v)
     if (v < nVars()) {
         // These are Necessary in incremental mode since previously
         // ignored vars can now reappear
-        decision[v] = true;
-        insertVarOrder(v);
+        setDecisionVar(v, true);
         return;
     }
     while (v >= nVars())
